@@ -710,6 +710,8 @@ def float_part(R: Run, mods):
             R.oracle(False, "compute-output-raises", case, f"{type(e).__name__}: {e}")
             continue
         judge(R, mods, g, dst, mode_arg, shape, tight, anchor, tol, rnd, out, spy, case, lon, lat)
+        if it % 3 == 0 and not callable(rnd):
+            forwarding_oracle(R, mods, g, dst_arg, mode_arg, shape, tight, anchor, tol, rnd, out, case)
 
 
 def shape_oracle(R, shape, out, tight, anchor, case, sig, tol=TOL_DEFAULT):
@@ -869,6 +871,23 @@ def judge(R, mods, g, dst, mode, shape, tight, anchor, tol, rnd, out, spy, case,
                 R.oracle(True, "encloses-every-pixel", case, "", sig=sig)
 
 
+def forwarding_oracle(R, mods, g, dst_arg, mode, shape, tight, anchor, tol, rnd, out, case):
+    """every forwarding layer hands the options on unchanged, falsy-but-meaningful values included (tol=0, tight=False,
+    shape=None, round_resolution=False/None): GeoBox.to_crs(crs, **kw) is compute_output_geobox(gbox, crs, **kw)"""
+    Affine, GeoBox, ov, M, CRS, norm_crs, _pick, resxy_, xy_, AnchorEnum = mods
+    res = mode if not isinstance(mode, tuple) else resxy_(*mode)
+    try:
+        out2 = g.to_crs(dst_arg, resolution=res, shape=shape, tight=tight, anchor=anchor_py(anchor, xy_, AnchorEnum), tol=tol,
+                        round_resolution=rnd)
+    except Exception as e:  # pylint: disable=broad-except
+        R.oracle(False, "to-crs-forwards-options", case, f"to_crs raised {type(e).__name__}: {e}")
+        return
+    same = (out2 is out) or (tuple(out2.shape) == tuple(out.shape) and out2.affine == out.affine and out2.crs.proj == out.crs.proj)
+    R.oracle(same, "to-crs-forwards-options", case,
+             f"GeoBox.to_crs gives {tuple(out2.shape)} {tuple(out2.affine)[:6]} but compute_output_geobox with the same options "
+             f"{tuple(out.shape)} {tuple(out.affine)[:6]}")
+
+
 def coarse_part(R: Run, mods):
     """coarse destinations (output pixel >= 100 source pixels) with small tol and footprint edges placed
     tol * {0.5, 2} before / past output pixel boundaries (captured-bbox construction: the pixel size and the
@@ -890,13 +909,14 @@ def coarse_part(R: Run, mods):
             n = rng.choice([1000, 4000])
             src = GeoBox((n, n), Affine(-20, 0, 1500000 + 20 * n, 0, -20, 6500000), "EPSG:3857")  # mirrored
             dst = rng.choice(["EPSG:4326", "EPSG:6933"])
-        tol = rng.choice([1e-2, 1e-3, 1e-4, 1e-6])
+        tol = rng.choice([1e-2, 1e-3, 1e-4, 1e-6, 0, 0.0])
         try:
             bbox = src.footprint(dst, buffer=0.9, npoints=100).boundingbox
         except Exception:  # pylint: disable=broad-except
             continue
         N = rng.randint(2, 10)
-        fl, fr, fb = (rng.choice([0.5, 2, -0.5, -2]) * tol for _ in range(3))
+        # tol = 0 (falsy but meaningful): edges 0.2 % / 0.8 % of a pixel before / past the boundaries
+        fl, fr, fb = (rng.choice([0.5, 2, -0.5, -2]) * (tol if tol > 0 else 0.004) for _ in range(3))
         res = bbox.span_x / (N + fr - fl)
         ax = (bbox.left / res - fl) % 1.0
         ay = (bbox.bottom / res - fb) % 1.0
@@ -914,6 +934,7 @@ def coarse_part(R: Run, mods):
             R.oracle(False, "compute-output-raises", case, f"{type(e).__name__}: {e}")
             continue
         judge(R, mods, src, dst, mode, None, False, anchor, tol, None, out, spy, case, None, None)
+        forwarding_oracle(R, mods, src, dst, mode, None, False, anchor, tol, None, out, case)
 
 
 def run(R: Run):
